@@ -76,6 +76,17 @@ def pairsChained (ax : Axis) (n : Nat) (masks : Array Nat) : Bool :=
   (List.range n).all fun u => (List.range n).all fun v =>
     !(u < v && scanMeet ax u v) || (maskAt masks u).testBit v || (maskAt masks v).testBit u
 
+/-- the sweep extents overlap by a positive length (touching does not count): only such pairs can
+    overlap with positive area, whatever the placement in the constraint dimension -/
+def scanMeetStrict (ax : Axis) (u v : Nat) : Bool :=
+  decide (ax.opn u < ax.cls v) && decide (ax.opn v < ax.cls u)
+
+def firstUnchainedStrict (ax : Axis) (n : Nat) (masks : Array Nat) : Option (Nat × Nat) :=
+  (List.range n).findSome? fun u =>
+    ((List.range n).find? fun v =>
+      u < v && scanMeetStrict ax u v && !((maskAt masks u).testBit v || (maskAt masks v).testBit u)).map
+      fun v => (u, v)
+
 def firstUnchained (ax : Axis) (n : Nat) (masks : Array Nat) : Option (Nat × Nat) :=
   (List.range n).findSome? fun u =>
     ((List.range n).find? fun v =>
